@@ -258,7 +258,7 @@ def api_contract(rep):
         ex.path_state['st'] = dict(sql=sql, stripped=stripped, lexer=lexer, parser=parser, tokens=tokens, result=result)
 
         def re_sub(ex_, args, kwargs, node=None):
-            ex_.log.append(Event('re.sub', pattern=args[0], repl=args[1], s=args[2]))
+            ex_.log.append(Event('re.sub', pattern=args[0], repl=args[1], s=args[2], extra=(list(args[3:]), dict(kwargs))))
             return stripped
         ex.stubs[('re', 'sub')] = re_sub
 
@@ -281,7 +281,7 @@ def api_contract(rep):
         subs = [e for e in o.log if e.kind == 're.sub']
         toks = [e for e in o.log if e.kind == 'tokenize']
         prs = [e for e in o.log if e.kind == 'parse']
-        if len(subs) != 1 or subs[0].s is not st['sql'] or subs[0].pattern != r'[\s;]+$' or subs[0].repl != '':
+        if len(subs) != 1 or subs[0].s is not st['sql'] or subs[0].pattern != r'[\s;]+$' or subs[0].repl != '' or subs[0].extra != ([], {}):
             return f'input is not stripped exactly by re.sub(r"[\\s;]+$", "", sql): {subs}'
         if len(toks) != 1 or toks[0].text is not st['stripped'] or toks[0].extra != ([], {}):
             return f'tokenize is not called exactly once on the whole stripped text: {toks}'
@@ -541,6 +541,8 @@ def check(rep, tier):
     ignore_obligations(rep)
     from vlib import statecensus
     statecensus.obligations(rep, 'C05', 'parser')
+    from vlib import preproc
+    preproc.obligation(rep, 'C05', tier, dialects=('mindsdb', 'mysql', 'sqlite'))
     rep.dropped = ('tables regenerated by importing the real parser classes; function bodies read with ast.parse: decorators other than @_, '
                    'docstrings, comments and type hints dropped; Lexer.tokenize (a generator) is abstracted as an opaque iterator')
     rep.assume('T2 (LR soundness, textbook): a run of valid LR(0) shift/reduce moves from the initial configuration that ends in accept derives '
